@@ -7,6 +7,8 @@ import Solvor.Cp.Theorems
 #print axioms Solvor.Cp.propagate_sound
 #print axioms Solvor.Cp.dfs_leaf_needs_check
 #print axioms Solvor.Cp.dfs_returns_solutions
+#print axioms Solvor.Cp.dfs_complete
+#print axioms Solvor.Cp.dfs_infeasible_iff
 #print axioms Solvor.Cp.choose_solver_total
 #print axioms Solvor.Cp.enc_linear
 #print axioms Solvor.Cp.encode_model_exact_partial
